@@ -172,6 +172,16 @@ func (t *tagBody) Read(p []byte) (int, error) {
 }
 func (t *tagBody) Close() error { return nil }
 
+// Seek: the body's concrete type can be rewound (an *os.File, a bytes.Reader with a Close method): a retry must
+// re-obtain the body through GetBody all the same, and end with ErrNoGetBody where there is none
+func (t *tagBody) Seek(offset int64, whence int) (int64, error) {
+	if offset == 0 && whence == io.SeekStart {
+		t.consumed = false
+		return 0, nil
+	}
+	return 0, errors.New("verif: tagBody: unsupported seek")
+}
+
 type pAttempt struct {
 	kind, sub byte
 	ewl       bool
